@@ -27,6 +27,7 @@ type input struct {
 	Kind string `json:"kind"` // "str" | "parts" | "route"
 	EP   int    `json:"endpoint,omitempty"` // index into endpoints (route)
 	Hex  string `json:"hex,omitempty"`
+	Raw  *string `json:"raw,omitempty"` // route: the percent-encoded spelling put on the request line (absent: canonical encoding)
 	H    string `json:"h,omitempty"` // hex
 	R    string `json:"r,omitempty"`
 	T    string `json:"t,omitempty"`
@@ -49,11 +50,15 @@ func (p pres) coq(base string) string {
 	return "EPanic"
 }
 
-// lit renders a byte string as a Coq term of type bytes: (s "ascii") when every byte is
-// printable ASCII other than the double quote, (x "hex") otherwise.
+// lit renders a byte string as a Coq term of type bytes: (s "ascii") when it is short and every
+// byte is printable ASCII other than the double quote, the packed form hx.B otherwise (a long
+// string literal is several times dearer for coqc to read than the packed integers).
 func lit(v string) string {
 	if v == "" {
 		return "[]"
+	}
+	if len(v) > 16 {
+		return hx.B(v)
 	}
 	for i := 0; i < len(v); i++ {
 		if v[i] < 0x20 || v[i] > 0x7e || v[i] == '"' {
@@ -595,16 +600,47 @@ func main() {
 			Tags: map[string]any{"class": "parts/" + origin + "/" + outcome, "origin": origin, "outcome": outcome}},
 			[]string{"kind:parts", "origin:" + origin, "parts:" + outcome, "parts_reparse:" + o.Rel.State})
 	}
-	addRouteEP := func(ep int, w, origin string) {
-		coq, o := runRoute(ep, w)
-		in := input{Kind: "route", Hex: hex.EncodeToString([]byte(w)), EP: ep}
-		emit(hx.Case{Coq: coq, Desc: map[string]any{"input": in, "text": printable(w), "observed": o, "origin": origin},
-			Tags: map[string]any{"class": "route/" + endpoints[ep].Pos + "/" + endpoints[ep].Name + "/" + o.Accepted, "origin": origin, "outcome": o.Accepted}},
-			[]string{"kind:route", "route_pos:" + endpoints[ep].Pos, "route_accepted:" + endpoints[ep].Pos + ":" + o.Accepted, "origin:" + origin})
+	addRouteEP := func(ep int, w string, raw *string, mode, origin string) {
+		coq, o := runRoute(ep, w, raw)
+		in := input{Kind: "route", Hex: hex.EncodeToString([]byte(w)), EP: ep, Raw: raw}
+		spelling := "canonical"
+		if raw != nil {
+			spelling = "respelled"
+		}
+		emit(hx.Case{Coq: coq, Desc: map[string]any{"input": in, "text": printable(w), "observed": o, "origin": origin, "spelling": mode},
+			Tags: map[string]any{"class": "route/" + endpoints[ep].Pos + "/" + endpoints[ep].Name + "/" + spelling + "/" + o.Accepted, "origin": origin, "outcome": o.Accepted, "spelling": mode}},
+			[]string{"kind:route", "route_pos:" + endpoints[ep].Pos, "route_accepted:" + endpoints[ep].Pos + ":" + o.Accepted, "origin:" + origin,
+				"route_spelling:" + mode, "route_accepted_spelling:" + spelling + ":" + o.Accepted})
 	}
+	// one respelling of w for endpoint ep in the given mode; false when it is the canonical one
+	respell := func(ep int, w, mode string) (string, bool) {
+		inq := endpoints[ep].WKey != ""
+		raw := spell(rng, mode, w, inq)
+		return raw, raw != canonicalSpelling(w, inq)
+	}
+	// canonical encoding at every endpoint, plus - at every second endpoint on average - one
+	// other spelling (mode drawn at random)
 	addRoute := func(w, origin string) {
 		for ep := range endpoints {
-			addRouteEP(ep, w, origin)
+			addRouteEP(ep, w, nil, "canonical", origin)
+			for try := 0; try < 4 && (try > 0 || rng.Intn(2) == 0); try++ {
+				mode := spellModes[rng.Intn(len(spellModes))]
+				if raw, ok := respell(ep, w, mode); ok {
+					addRouteEP(ep, w, &raw, mode, origin)
+					break
+				}
+			}
+		}
+	}
+	// every spelling mode at every endpoint
+	addRouteAllSpellings := func(w, origin string) {
+		for ep := range endpoints {
+			addRouteEP(ep, w, nil, "canonical", origin)
+			for _, mode := range spellModes {
+				if raw, ok := respell(ep, w, mode); ok {
+					addRouteEP(ep, w, &raw, mode, origin)
+				}
+			}
 		}
 	}
 	runInput := func(in input, origin string) {
@@ -617,7 +653,11 @@ func main() {
 		}
 		switch in.Kind {
 		case "route":
-			addRouteEP(in.EP, dec(in.Hex), origin)
+			mode := "canonical"
+			if in.Raw != nil {
+				mode = "given"
+			}
+			addRouteEP(in.EP, dec(in.Hex), in.Raw, mode, origin)
 		case "parts":
 			addParts(dec(in.H), dec(in.R), dec(in.T), dec(in.D), origin)
 		default:
@@ -687,6 +727,46 @@ func main() {
 		addStr("r:"+string(c)+"x", "tag-bytes")
 		addStr("r:x"+string(c), "tag-bytes")
 		addStr("x"+string(c)+"y", "tag-bytes")
+	}
+	// every byte value 0x80..0xff (alone, so not valid UTF-8) and every rune U+0080..U+00FF plus
+	// samples of longer sequences (valid UTF-8), at the first / an inner / the last position of a
+	// tag, a repository name and a digest (algorithm and hex part): a scan that classifies bytes
+	// or runes with the unicode package accepts some of them (0xaa 0xb5 0xba 0xc0.. are Latin-1
+	// letters, 0xb2 0xb3 0xb9 digits in some tables)
+	var hiPieces []string
+	for c := 0x80; c <= 0xff; c++ {
+		hiPieces = append(hiPieces, string([]byte{byte(c)}), string(rune(c)))
+	}
+	for _, ru := range []rune{0x100, 0x17f, 0x3b1, 0x430, 0x435, 0x43a, 0x5d0, 0x660, 0x7ff, 0x800, 0x966, 0x3042, 0x65e5, 0xff10, 0xff21, 0xff41, 0xfffd, 0x10000, 0x1d7d8, 0x10ffff} {
+		hiPieces = append(hiPieces, string(ru))
+	}
+	hex64 := okDigest[len("sha256:"):]
+	for i, c := range hiPieces {
+		for _, t := range []string{c + "x", "x" + c + "y", "x" + c, c} {
+			addStr(t, "high-bytes")
+		}
+		addStr("r.io/x:v"+c+"1", "high-bytes")
+		addStr("r.io/x"+c+"y", "high-bytes")
+		addStr("r"+c+".io/x", "high-bytes")
+		addStr("sha256:"+c+hex64[len(c):], "high-bytes")
+		addStr("sha256:"+hex64[:30]+c+hex64[30+len(c):], "high-bytes")
+		addStr("sha256:"+hex64[:64-len(c)]+c, "high-bytes")
+		addStr("sha"+c+"256:"+hex64, "high-bytes")
+		addStr("r.io/x@sha256:"+hex64[:30]+c+hex64[30+len(c):], "high-bytes")
+		addParts("r.io", "x"+c+"y", "v"+c, "", "high-bytes")
+		for _, ep := range []int{0, 10 + i%4, 17} { // a repository, a tag and a digest position of the router
+			switch endpoints[ep].Pos {
+			case "PRepo":
+				addRouteEP(ep, "x"+c+"y", nil, "canonical", "high-bytes")
+			case "PTagRef":
+				addRouteEP(ep, "v"+c+"1", nil, "canonical", "high-bytes")
+				addRouteEP(ep, c, nil, "canonical", "high-bytes")
+			case "PDigest":
+				addRouteEP(ep, "sha256:"+hex64[:30]+c+hex64[30+len(c):], nil, "canonical", "high-bytes")
+			default:
+				panic("endpoint table changed: " + endpoints[ep].Pos)
+			}
+		}
 	}
 	for _, sep := range append(append([]string{}, seps...), badSeps...) { // every separator form
 		addStr("a"+sep+"b", "separators")
@@ -823,6 +903,11 @@ func main() {
 	for _, s := range []string{okRepo, okRepo2, okDigest, "sometag", "a/blobs/uploads", "a/manifests/b", "a/tags/list", "a/referrers/x",
 		"blobs", "manifests", "uploads", "tags", "referrers", "v2", "_catalog", "a/b/", "/a/b", "a//b", "../a", "a/../b", ".", "..", "%2e", "a%2fb", "a?b", "a#b", "a b", "A/b", "a/B"} {
 		addRoute(s, "routing-words")
+	}
+	// names, tags and digests the predicates accept (and near misses), in every spelling mode
+	for _, s := range []string{okRepo, "foo", "a.b/c_d/e--f", "r0/r1/r2__x", "Foo", "foo/.bar", "sometag", "v1.2.3-rc.1", "_x", "-bad", "bad+tag", "a b",
+		okDigest, "sha512:" + strings.Repeat("b", 128), "sha384:" + strings.Repeat("0c", 48), "sha256:" + strings.Repeat("a", 63), "sha256+b64:abc", "md5:abc"} {
+		addRouteAllSpellings(s, "route-spellings")
 	}
 	nr := 250
 	if cfg.Thorough() {
